@@ -61,6 +61,15 @@ partial def parseExpr : List String → Option (Expr × List String)
         | _ => none
       | _ => none
   | "(" :: "tryfin" :: rest => bin .tryFin rest
+  -- `(via <kind> e)`: `e` evaluated inside an extra plain Python frame of the same formula (generator
+  -- expression, comprehension, lambda, nested def).  Value, calls, their order and errors are those of
+  -- `e`; the model has no frames, so the reader drops the wrapper (what differs is the rendered Python:
+  -- line numbers of tracebacks, which the C17 oracle compares on the implementation)
+  | "(" :: "via" :: _kind :: rest => do
+      let (a, r1) ← parseExpr rest
+      match r1 with
+      | ")" :: r2 => some (a, r2)
+      | _ => none
   | "(" :: "call" :: c :: rest => do
       let c ← c.toNat?
       let (args, r1) ← parseArgs rest
